@@ -3,8 +3,8 @@ from .. import c09_run as CR
 
 CLAIM = dict(
     technique="runtime monitoring of generated programs: static traits of every result type printed next to the run-time object; CLAMP / SVEC_CAPACITY hooks; sanitizers on",
-    text="The generated programs of C09 (same generator, same binaries) print for every operand, lazy view, evaluated result and index-function result TYPE what the library claims statically (meta::fixed_shape_v / fixed_dim_v / fixed_size_v / bounded_dim_v / bounded_size_v where not an error type; constant values, clipped maxima, fixed and bounded lengths of index results) next to shape()/dim()/size()/values of the run-time object and of an independent NumPy reference; fixed_* must be equal, bounds must be >=. Types with run-time freedom (clipped / bounded / hybrid / dynamic operands) are run over every primary shape the type admits under its (small) bound plus seeded samples. The clipped_integer_t clamp hook and the static_vector capacity hook must report zero violations while results are built and evaluated. Held on the types and inputs observed (list in the evidence).",
-    note="Trusted: NumPy / Python reference, NMTOOLS_VERIF hooks in def.hpp / utl/static_vector.hpp, the allow-list of C09. Compositions are depth 1 (view) and depth 2 (eval of view); element type int.",
+    text="The generated programs of C09 (same generator, same binaries) print for every operand, lazy view, evaluated result and index-function result TYPE what the library claims statically (meta::fixed_shape_v / fixed_dim_v / fixed_size_v / bounded_dim_v / bounded_size_v where not an error type; constant values, clipped maxima, fixed and bounded lengths of index results) next to shape()/dim()/size()/values of the run-time object and of an independent NumPy reference; fixed_* must be equal, bounds must be >=. Types with run-time freedom (clipped / bounded / hybrid / dynamic operands) are run over every primary shape the type admits under its (small) bound plus seeded samples. The clipped_integer_t clamp hook and the static_vector capacity hook must report zero violations while results are built and evaluated. Composite view operations (view of a view of depth 2 and 3: reductions / accumulations / element-wise / rearranging views over enlarging (tile, repeat, pad, broadcast_to), shrinking (sum) and joining (concatenate, add) inner views) are part of every tier over the array kinds whose result storage is inferred as fixed or bounded, with run-time inner arguments; the evaluated result must also have the shape of the lazy view it was evaluated from (a result the inferred buffer did not take is a violation). Held on the types and inputs observed (list in the evidence).",
+    note="Trusted: NumPy / Python reference, NMTOOLS_VERIF hooks in def.hpp / utl/static_vector.hpp, the allow-list of C09. Compositions are depth 1 (view), depth 2-3 (the 14 composites of vf/c09_gen.py, G.COMPOSITES) and the evaluation of each; element type int; a composite carries keepdims as a compile-time constant (a run-time bool keepdims is not evaluable for any array kind).",
     ref="DESIGN.md 3, 4/C11")
 TARGETS_QUICK = [CR.quick_targets_seed0]
 
@@ -16,6 +16,7 @@ def run(ctx):
     ctx.set("traits_checked", cov["traits_checked"])
     ctx.set("hook_events", cov["hook_events"])
     ctx.set("result_type_classes", cov["result_type_classes"])
+    ctx.set("composites", cov["composites"])
     ctx.set("programs", info["programs"])
     ctx.set("binaries", info["binaries"])
     ctx.set("binaries_compiled_this_run", info["compiled"])
@@ -28,6 +29,8 @@ def run(ctx):
                 "distinct = (operation, configuration kinds, argument values) whose result type carries static knowledge (constant / clipped / fixed / bounded) "
                 "and whose values are not the baked ones, resp. views with more than one element")
     ctx.exhaustive = False
+    if cov["composites"] and not any(c["view_larger_than_first_operand_capacity"] for c in cov["composites"].values()):
+        ctx.inconc("no composite view was larger than the capacity of its innermost operand (the region the composites are there for)")
     if cov["traits_checked"] == 0:
         ctx.inconc("no static trait was compared")
     if cov["hook_events"]["clamp"] == 0 or cov["hook_events"]["svec_capacity"] == 0:
